@@ -547,3 +547,35 @@ package server
 //@   ensures case count:    err == nil ==> count == np(sql, slen(sql)) && len(offsets) == count && qs(sql, slen(sql)) == 0
 //@   ensures case offsets:  err == nil ==> forall(k, 0, len(offsets), 0 <= offsets[k] && offsets[k] < slen(sql) && sat(sql, offsets[k]) == 63 && qs(sql, offsets[k]) == 0 && np(sql, offsets[k]) == k)
 //@   ensures case rejected: err != nil ==> qs(sql, slen(sql)) != 0
+
+// ---------------------------------------------------------------- C15 bound values become literals that denote them
+// escapeSQL writes every byte of the value in order, preceded by one backslash exactly when the byte is a backslash or a single
+// quote: ne(s, k) = number of such bytes among the first k; byte j of the value lands at position j + ne(s, j) (after its
+// backslash, if any). In MySQL's default sql_mode a quoted literal with this body denotes exactly the value, and its closing quote
+// is the first unescaped quote (every quote and backslash of the body is preceded by exactly one escaping backslash).
+//@ pure special(c byte) bool = c == 92 || c == 39
+//@ pure ne(s string, k int) int
+//@ axiom neStart for escapeSQL: forall(s string, ne(s, 0) == 0)
+//@ axiom neStep for escapeSQL: forall(s string, forall(k int, 1 <= k && k <= slen(s) ==> ne(s, k) == ne(s, k - 1) + ite(special(sat(s, k - 1)), 1, 0)))
+// (a consequence of the two defining axioms, by induction on b - a; stated once: the back ends do not do induction)
+//@ axiom neMono for escapeSQL: forall(s string, forall(a int, forall(b int, 0 <= a && a <= b && b <= slen(s) ==> 0 <= ne(s, a) && ne(s, a) <= ne(s, b) && ne(s, b) - ne(s, a) <= b - a)))
+// Under NO_BACKSLASH_ESCAPES (a sql_mode the session may set; SET sql_mode is passed to the backend) a backslash is an ordinary
+// byte and a quote inside a literal is written as two quotes: nq(s, k) = number of quote bytes among the first k; the literal body
+// that denotes the value has byte j at j + nq(s, j) (after its doubling quote, if any).
+//@ pure nq(s string, k int) int
+//@ axiom nqStart for escapeSQL: forall(s string, nq(s, 0) == 0)
+//@ axiom nqStep for escapeSQL: forall(s string, forall(k int, 1 <= k && k <= slen(s) ==> nq(s, k) == nq(s, k - 1) + ite(sat(s, k - 1) == 39, 1, 0)))
+// (consequences of the defining axioms by induction)
+//@ axiom nqMono for escapeSQL: forall(s string, forall(a int, forall(b int, 0 <= a && a <= b && b <= slen(s) ==> 0 <= nq(s, a) && nq(s, a) <= nq(s, b))))
+//@ axiom nqLeNe for escapeSQL: forall(s string, forall(k int, 0 <= k && k <= slen(s) ==> nq(s, k) <= ne(s, k)))
+//@ property C15: escapeSQL
+//@ func escapeSQL
+//@   requires slen(sql) < 1<<30
+//@   assigns \nothing
+//@   loop 0 invariant case fresh: t == nil || fresh(t)
+//@   loop 0 invariant case length: len(t) == rangeindex + 1 + ne(sql, rangeindex + 1)
+//@   loop 0 invariant case bytes: forall(j, 0, rangeindex + 1, t[j + ne(sql, j) + ite(special(sat(sql, j)), 1, 0)] == sat(sql, j) && (special(sat(sql, j)) ==> t[j + ne(sql, j)] == 92))
+//@   ensures case length: slen(ret0) == slen(sql) + ne(sql, slen(sql))
+//@   ensures case bytes:  forall(j, 0, slen(sql), sat(ret0, j + ne(sql, j) + ite(special(sat(sql, j)), 1, 0)) == sat(sql, j) && (special(sat(sql, j)) ==> sat(ret0, j + ne(sql, j)) == 92))
+//@   ensures case nbeLength: slen(ret0) == slen(sql) + nq(sql, slen(sql))
+//@   ensures case nbeBytes:  forall(j, 0, slen(sql), sat(ret0, j + nq(sql, j) + ite(sat(sql, j) == 39, 1, 0)) == sat(sql, j) && (sat(sql, j) == 39 ==> sat(ret0, j + nq(sql, j)) == 39))
